@@ -893,6 +893,17 @@ class Exec:
                 return nv
             if isinstance(v, ArrRef) and re.fullmatch(r'\*(const|mut) (T|MaybeUninit<T>)', norm(ty)):
                 return with_prov(ElemPtr(v.arr, bv(0)), v.prov)
+            if isinstance(v, (ElemPtr, ArrRef)) and norm(ty) in ('usize', 'isize') :
+                # the numeric address of a pointer: base(object) + index * size_of::<T>()
+                pv_ = v if isinstance(v, ElemPtr) else ElemPtr(v.arr, bv(0))
+                if pv_.cast:
+                    raise NotImplementedError('address of a chunk pointer')
+                key_ = 'addr_' + pv_.arr.name
+                if key_ not in s.consts:
+                    s.consts[key_] = mkint(key_)
+                # an allocated object does not wrap around the address space (and is at most isize::MAX bytes long)
+                st.pc += [MULOK(pv_.arr.len, s.S), ULE(pv_.arr.len * s.S, bv(2 ** 63 - 1)), ULE(s.consts[key_], bv(2 ** 63)), UGE(s.consts[key_], bv(1))]
+                return s.consts[key_] + pv_.idx * s.S
             if 'Transmute' in m.group(3) and isinstance(v, Slice):
                 # a fat pointer keeps its LENGTH WORD (element count): reinterpreting `&[Chunk]` as `&[T]` (or back) does not rescale it
                 tgt_chunk = bool(re.match(r"^&(?:'\w+ )?(?:mut )?\[(?:GenericArray<|\[)", norm(ty)))
@@ -2345,20 +2356,26 @@ class Exec:
             if re.match(r'^<Option<', c):
                 return R(Enum('None', {}))
             return R(Enum('Err', {0: UNIT}))
-        if re.search(r'<impl \[u8\]>::chunks_exact$', c):
+        if re.search(r'<impl \[.*\]>::chunks_exact(_mut)?$', c):
             sl, size = args
+            if isinstance(sl, ArrRef):
+                sl = Slice(sl.arr, bv(0), sl.arr.len)
+            if size is not None and z3.is_expr(size) and s.feasible(st, size == 0):
+                s.require(st, size != 0, 'chunks_exact with a chunk size of zero (panics)', where)
             ln = sl.end - sl.start
             q = s.div(st, ln, size)
             return R({'kind': 'chunks', 'arr': sl.arr, 'pos': sl.start, 'end': sl.start + q * size, 'size': size, 'rem_end': sl.end})
-        if re.match(r'ChunksExact::<.*>::remainder$', c):
+        if re.match(r'ChunksExact(Mut)?::<.*>::(remainder|into_remainder)$', c):
             it = args[0]
             while isinstance(it, Ref):
                 it = st.get(it.cell, it.path)
             return R(Slice(it['arr'], it['end'], it['rem_end']))
-        if re.search(r'<impl \[u8\]>::chunks$', c):
+        if re.search(r'<impl \[.*\]>::chunks(_mut)?$', c):
             sl, size = args
+            if isinstance(sl, ArrRef):
+                sl = Slice(sl.arr, bv(0), sl.arr.len)
             return R({'kind': 'chunks', 'arr': sl.arr, 'pos': sl.start, 'end': sl.end, 'size': size})
-        if re.match(r'<Chunks<.*> as Iterator>::next$', c):
+        if re.match(r'<Chunks(Mut)?<.*> as Iterator>::next$', c):
             r = args[0]
             it = st.get(r.cell, r.path)
             outs = []
